@@ -43,13 +43,17 @@ Why(ps, t, key, obs) ==
                  \o (IF "nbfdflt" \in kindsOf(S) THEN "C12 " ELSE "")
                  \o (IF kindsOf(S) \cap {"accept", "reject", "magic"} # {} THEN "C16 " ELSE "")
                  \o (IF \E k \in S : ~HasV(ps, k) THEN "C15 " ELSE "")
+      \* what distinguishes the presentation from the token's origin
+      mism == (IF t.e # NoEdit THEN "C03 " ELSE "") \o (IF key # t.o.k THEN "C04 " ELSE "")
+              \o (IF FB(ps.footer) # FB(t.o.f) THEN "C05 " ELSE "")
+              \o (IF HasAssertion(ps.pr[1]) /\ AB(ps.assertion) # AB(t.o.a) THEN "C06 " ELSE "")
   IN
   IF core.res # "ok" THEN
-     (IF obs.res = "ok" THEN "C03 C04 C05 C16 a token that does not authenticate was accepted"
+     (IF obs.res = "ok" THEN mism \o "C16 a token that does not authenticate under the parser's key / footer / assertion was accepted"
       ELSE IF obs.calls # <<>> THEN "C03 C16 a validator ran on a token that does not authenticate"
       ELSE "C03 C09 rejection is not an authentication/format error")
   ELSE IF ~t.json THEN "C14 C15 non-JSON payload"
-  ELSE IF obs.res = "pre" THEN "C01 C02 C15 an authentic token was rejected by the core layer"
+  ELSE IF obs.res = "pre" THEN "C01 C02 C05 C06 C15 an authentic token was rejected by the core layer (key, footer and assertion set last on the parser match)"
   ELSE IF obs.res = "ok" /\ ~should THEN tag(failing) \o "accepted although an expectation / validator fails"
   ELSE IF obs.res # "ok" /\ should THEN
      tag(IF obs.errkey \in PKeys THEN {obs.errkey} ELSE {k \in PKeys : HasV(ps, k)}) \o "rejected although every expectation holds"
